@@ -21,16 +21,16 @@ import (
 )
 
 type replayCtx struct {
-	e       *Engine
-	o       *Obligation
-	fn      *ssa.Function
-	pkg     *types.Package
-	imports map[string]string // path -> name
-	vals    map[int]string    // term id -> SMT value text
-	pending map[int]*Term
-	base    string // obligation script prefix (assumptions + negated goal) reused for value queries
-	entry   *State
-	log     []string
+	e        *Engine
+	o        *Obligation
+	fn       *ssa.Function
+	pkg      *types.Package
+	imports  map[string]string // path -> name
+	vals     map[int]string    // term id -> SMT value text
+	pending  map[int]*Term
+	base     string // obligation script prefix (assumptions + negated goal) reused for value queries
+	entry    *State
+	log      []string
 	termByID map[int]*Term
 }
 
@@ -89,7 +89,7 @@ func (rc *replayCtx) query() bool {
 	}
 	s := NewScript()
 	var asserts []string
-	for _, a := range rc.o.Assumes {
+	for _, a := range relevantAssumes(rc.o) {
 		asserts = append(asserts, s.Ref(a))
 	}
 	asserts = append(asserts, s.Ref(Not(rc.o.Goal)))
@@ -392,9 +392,16 @@ var termByIDdummy = 0
 func replayObligation(e *Engine, d *Discharged) (bool, interface{}) {
 	info := map[string]interface{}{}
 	o := d.Obl
-	if d.Res.Status != "sat" {
+	if d.Res.Status != "sat" || len(d.Res.Model) == 0 {
+		candidateModel(d)
+		o = d.Obl
+	}
+	if (d.Res.Status != "sat" || len(d.Res.Model) == 0) && !d.Res.Candidate {
 		info["status"] = "no model from the solver (" + d.Res.Status + ")"
 		return false, info
+	}
+	if d.Res.Candidate {
+		info["model_kind"] = "candidate (quantifier-free approximation of the obligation)"
 	}
 	if o.ex == nil || o.ex.root == nil {
 		info["status"] = "no replay information"
